@@ -352,7 +352,6 @@ static void run_case(char *line)
 	setenv("LINES", rs, 1); setenv("COLUMNS", cs, 1);
 	unsetenv("EXINIT");
 	emu_init(&emuA, rows, cols);
-	fprintf(dumpf, "%.*s res=", (int) strcspn(line, "\n"), line);
 	in_editor = 1;
 	if (!setjmp(done_jmp)) {
 		vi_main(2, argv);
@@ -378,6 +377,7 @@ int main(int argc, char *argv[])
 		int status = 0;
 		if (strncmp(line, "vi ", 3))
 			continue;
+		printf("%.*s res=", (int) strcspn(line, "\n"), line);	/* the parent owns the case prefix */
 		fflush(stdout);
 		pid = fork();
 		if (pid == 0) {
